@@ -386,6 +386,7 @@ def analyse_log(mod, fname, base, bits):
             'ulp': float(ulps(rho, bits)), 'ulp_exact': ulps(rho, bits), 'degree': (n0p.deg(), df.deg())}
 
 
+TRIG = ['sin', 'cos']
 FUNCS = [('exp', analyse_exp, 'e'), ('exp2', analyse_exp, '2'), ('exp10', analyse_exp, '10'),
          ('log', analyse_log, 'e'), ('log2', analyse_log, '2'), ('log10', analyse_log, '10')]
 
@@ -408,6 +409,35 @@ def analyse(job):
     mod = ir.load_ll(ll)
     tn = 'f32' if bits == 32 else 'f64'
     out = {'cfg': cfgname, 'res': []}
+    from . import c10trig
+    for fn in TRIG:
+        key = 'kernel|%s|%s|%s' % (fn, tn, cfgname)
+        try:
+            tr = c10trig.analyse_trig(mod, 'm_%s_%s' % (fn, tn), fn, bits, THR)
+        except (Mismatch, NotReal) as e:
+            out['res'].append((key, 'mismatch', {'why': str(e)[:300]}))
+            continue
+        except (ValueError, KeyError, IndexError, ZeroDivisionError, RecursionError, TypeError, AttributeError) as e:
+            out['res'].append((key, 'mismatch', {'why': 'analysis error %r' % (e,)}))
+            continue
+        cases = tr['cases']
+        mism = [c_ for c_ in cases if c_['verdict'] == 'mismatch']
+        bad = [c_ for c_ in cases if c_['verdict'] == 'bad']
+        okc = [c_ for c_ in cases if c_['verdict'] == 'ok']
+        summary = {'paths': tr['paths'], 'cases': len(cases), 'cases_ok': len(okc), 'cases_not_analysed': [c_.get('why', '')[:160] for c_ in cases if c_['verdict'] == 'skipped'][:6],
+                   'paths_not_analysed': tr['not_analysed'][:4], 'ulp': max([c_['ulp'] for c_ in okc] or [0.0]),
+                   'kernel_rel_err': 0.0, 'const_rel_err': 0.0,
+                   'tiers': sorted(set((c_['path'], c_.get('kernel'), round(c_.get('ulp', 0), 4), tuple(round(v, 5) for v in c_.get('u_range', (0, 0)))) for c_ in okc))[:40]}
+        if mism and not bad:
+            out['res'].append((key, 'mismatch', {'why': 'path %s: %s' % (mism[0]['path'], mism[0].get('why', ''))}))
+        elif bad:
+            b0 = bad[0]
+            summary.update(bad_case=dict((k, v) for k, v in b0.items() if k != 'either'), ulp=b0['ulp'])
+            out['res'].append((key, 'bad', summary))
+        elif len(okc) < 4:
+            out['res'].append((key, 'mismatch', {'why': 'only %d analysable cases (tiers) found' % len(okc)}))
+        else:
+            out['res'].append((key, 'ok', summary))
     for (fn, an, par) in FUNCS:
         if not applicable(fn, bits, cfgname):
             continue
@@ -457,17 +487,23 @@ def run_for(pid, bits, a):
                     continue
                 nob += 1
                 rows.append(dict(d, obligation=key))
+                if st == 'bad' and 'bad_case' in d:
+                    b = d['bad_case']
+                    r.violation(key, 'on the control path %s (|x| in [%.6g, %s]) the reduced argument ranges over %s and the kernel there is %s ulp from sin/cos (approximation %s, reduction constants %s, unfused k*c products %s ulp)%s: above the property bound %s ulp plus %s ulp rounding allowance' % (
+                        b.get('path'), b.get('x_range', (0, 0))[0], b.get('x_range', (0, 0))[1], b.get('u_range'), b.get('ulp'), b.get('kernel_ulp'), b.get('reduction_const_ulp'), b.get('cody_waite_ulp'),
+                        (' -- ' + b['why']) if b.get('why') else '', float(BOUND_ULP), float(ROUNDING_ALLOWANCE_ULP)), dict(d, obligation=key))
+                    continue
                 if st == 'bad':
                     cw = (' -- of which %.3g ulp because the separately rounded product k*%.9g of the argument reduction is not exact (Cody-Waite needs a short leading constant when the multiply is not fused)' % (d['cody_waite_ulp'], d['cody_waite_site'])) if d.get('cody_waite_ulp', 0) > 1 else ''
                     r.violation(key, 'method error of the kernel is %.3g ulp on its reduced domain (approximation %.3g, reduction constants %.3g relative)%s: above the property bound %s ulp plus %s ulp rounding allowance' % (
                         d['ulp'], d['kernel_rel_err'], d['const_rel_err'], cw, float(BOUND_ULP), float(ROUNDING_ALLOWANCE_ULP)), dict(d, obligation=key))
-    want = sum(1 for c in cfgs for f in FUNCS if applicable(f[0], bits, c))
+    want = sum(1 for c in cfgs for f in FUNCS if applicable(f[0], bits, c)) + len(TRIG) * len(cfgs)
     if nob < want and not r.broken:
         r.broke('only %d of %d kernel obligations generated' % (nob, want))
     nbad = len(set(k for (k, w, d) in r.violations))
     cov = {'explanation': 'method-error clause only: for every argument of the reduced domain, the real function denoted by the kernel (roundings erased; read off the optimised IR of the public function on %s) is within the stated number of ulps of the mathematical function, reduction constants included; rigorous rational/interval arithmetic.  The ulp bound of the property itself (accumulated rounding over all arguments) is NOT decided.' % cfgs,
            'obligations': nob, 'discharged': nob - nbad, 'evaluations': nob, 'distinct_nontrivial': nob - nbad, 'kernels': rows[:60],
-           'functions_covered': [f[0] for f in FUNCS], 'threshold_ulp': float(THR), 'checker_cmd': 'python3 /verif/check.py %s --tier %s' % (pid, a.tier),
+           'functions_covered': [f[0] for f in FUNCS] + TRIG, 'threshold_ulp': float(THR), 'checker_cmd': 'python3 /verif/check.py %s --tier %s' % (pid, a.tier),
            'trusted_base': ['clang 14 -O2 translation of the headers', 'lane-term normaliser (engine/terms.py, lanes.py)', 'engine/realfn.py (rounding-erased reading of lane terms)', 'engine/qi.py (interval arithmetic, series with tail bounds)',
                             'reviewed templates: the meaning of the non-arithmetic atoms (K = nearbyint(cX), S = 2^K, mantissa/exponent split)'],
            'rule': 'sup over the reduced domain of |kernel_real(u) / f(u) - 1| * 2^p <= %s ulp' % float(THR), 'headers_sha256': build.headers_hash()}
